@@ -186,6 +186,8 @@ b("B71", TX, "\twallet.store_tx(&format!(\"{}\", tx.tx_slate_id.unwrap()), slate
 b("B72", "libwallet/src/slatepack/armor.rs", "\tif error_code.iter().eq(new_check.iter()) {", "\tif error_code == &new_check[..] {", "checksum compared as whole slices instead of iterators")
 b("B73", OWNER, "\tfor parent_key_id in accounts.iter() {\n\t\tif let Err(e) = updater::refresh_outputs(", "\tfor parent_key_id in &accounts {\n\t\tif let Err(e) = updater::refresh_outputs(", "account loop over a reference instead of iter()")
 
+b("B74", "impls/src/lifecycle/seed.rs", "\t\tlet nonce: [u8; 12] = thread_rng().gen();\n\t\tlet password = password.as_bytes();", "\t\tlet nonce: [u8; 12] = thread_rng().gen();\n\t\tlet password: &[u8] = password.as_ref();", "password bytes taken with as_ref instead of as_bytes")
+
 
 def _apply(mu, repo_copy):
     p = os.path.join(repo_copy, mu["file"])
